@@ -268,7 +268,9 @@ func runC05Proc(c *vkit.Ctx, p *Program, caseIdx, round int, ci bool, updVar str
 		c.Count("ci_processes_as_unprivileged_user_on_a_read_only_tree", 1)
 	}
 	var straceLog string
-	if c.Thorough() && ci {
+	if c.Thorough() && ci && !opt.AsNobody {
+		// (the unprivileged processes are not traced: strace would run unprivileged too and
+		// could not write its log next to the root-owned scratch tree)
 		straceLog = filepath.Join(cellsRoot, "..", fmt.Sprintf("strace-%d.log", caseIdx))
 		opt.Strace = straceLog
 		defer os.Remove(straceLog)
